@@ -33,14 +33,26 @@ pub enum FsyncSchedule {
     NoFsync,  // disable fsyncing entirely (maximum throughput, no durability)
 }
 
+#[cfg(not(walrus_verif_small))]
 pub(crate) const DEFAULT_BLOCK_SIZE: u64 = 10 * 1024 * 1024; // 10mb
+#[cfg(walrus_verif_small)]
+pub(crate) const DEFAULT_BLOCK_SIZE: u64 = 4096;
+#[cfg(not(walrus_verif_small))]
 pub(crate) const BLOCKS_PER_FILE: u64 = 100;
+#[cfg(walrus_verif_small)]
+pub(crate) const BLOCKS_PER_FILE: u64 = 8;
+#[cfg(not(walrus_verif_small))]
 pub(crate) const MAX_ALLOC: u64 = 1 * 1024 * 1024 * 1024; // 1 GiB cap per block
+#[cfg(walrus_verif_small)]
+pub(crate) const MAX_ALLOC: u64 = 16 * 1024;
 // Expose so integration tests can match the on-disk layout when poking raw files.
 pub const PREFIX_META_SIZE: usize = 256;
 pub(crate) const MAX_FILE_SIZE: u64 = DEFAULT_BLOCK_SIZE * BLOCKS_PER_FILE;
 pub(crate) const MAX_BATCH_ENTRIES: usize = 2000;
+#[cfg(not(walrus_verif_small))]
 pub(crate) const MAX_BATCH_BYTES: u64 = 10 * 1024 * 1024 * 1024; // 10 GiB total payload limit
+#[cfg(walrus_verif_small)]
+pub(crate) const MAX_BATCH_BYTES: u64 = 256 * 1024;
 
 static LAST_MILLIS: AtomicU64 = AtomicU64::new(0);
 
